@@ -45,6 +45,9 @@ def main():
             shutil.rmtree(scratch, ignore_errors=True)
             continue
         src = src.replace(m["old"], m["new"], m.get("count", 1))
+        if "old2" in m:  # a second edit site of the same mutant
+            assert src.count(m["old2"]) >= 1, m["id"] + ": second pattern not found"
+            src = src.replace(m["old2"], m["new2"], 1)
         open(path, "w").write(src)
         for p in m["props"]:
             if prop and p != prop:
